@@ -1,2 +1,70 @@
+/-
+# C01 — Elaboration and export preserve the connectivity the designer wrote
+
+What is proved here (fragment **F1**: buses, arbitrarily nested slices and concatenations):
+for every connection, of any width and nesting, the bits that the VLSIR netlisters read
+(positionally, most-significant first) in the connection target that `SliceResolver` + the exporter
+produce are exactly — same bits, same order, bit `i` to bit `i` — the bits the designer's expression
+denotes.  This covers `_list_slice/_resolve_slice/_resolve_concat`, `export_slice`'s inclusive top and
+`export_concat`'s part order.
+
+What is **not** proved but decided by the correspondence with the declarative `Sem.src` as oracle
+(Design.lean; evaluated by the driver on every generated design and compared with `Sem.pkg` of the
+real package and with the netlist text): port-reference groups, no-connects, arrays, bundles,
+anonymous bundles, pairs and the composition across hierarchy (F2, F3 of DESIGN.md §6).
+-/
+import Hdl21Model.Lemmas.Resolve
+import Hdl21Model.Lemmas.Export
 namespace Hdl21.Props.C01
+open Hdl21 Hdl21.Pkg
+
+theorem sigsOK_leafPred (ws : List (String × Nat)) : LeafPred (fun c => sigsOK ws c = true) := by
+  constructor
+  · intro p idx; rw [sigsOK]
+  · intro ps
+    rw [sigsOK]
+    induction ps with
+    | nil => simp [sigsOKList]
+    | cons p ps ih => simp [sigsOKList, ih]
+
+/-- **F1**: resolve, export, read back = the designer's bits. -/
+theorem connection_preserved (ws : List (String × Nat)) (fuel : Nat) (c r : SConn) (t : PTarget) (bs : List Bit)
+    (hok : sigsOK ws c = true)
+    (hr : resolveSliceable fuel c = .ok r) (he : exportTarget r = .ok t) (hd : c.denote = .ok bs) :
+    readTarget ws t = bs.map bitNat := by
+  have hok' : sigsOK ws r = true := (resolve_keeps _ (sigsOK_leafPred ws) fuel).2.2.1 c r hr hok
+  exact export_read ws r t bs hok' he (resolve_preserves_bits_aux fuel c r bs hr hd)
+where resolve_preserves_bits_aux (fuel : Nat) (c r : SConn) (bs : List Bit)
+    (h : resolveSliceable fuel c = .ok r) (hd : c.denote = .ok bs) : r.denote = .ok bs :=
+  (resolve_sound fuel).2.2.1 c r bs h hd
+
+/-- Bit `i` of the connection reaches bit `i` of the port: the reading has the connection's width
+    and its `i`-th element is the `i`-th denoted bit. -/
+theorem bit_i_to_bit_i (ws : List (String × Nat)) (fuel : Nat) (c r : SConn) (t : PTarget) (bs : List Bit)
+    (hok : sigsOK ws c = true)
+    (hr : resolveSliceable fuel c = .ok r) (he : exportTarget r = .ok t) (hd : c.denote = .ok bs) (i : Nat) :
+    (readTarget ws t)[i]? = (bs[i]?).map bitNat := by
+  rw [connection_preserved ws fuel c r t bs hok hr he hd, List.getElem?_map]
+
+/-- Concatenation parts are exported most-significant first: reading `Concat(a, b)` gives `a`'s bits lowest. -/
+theorem concat_order (ws : List (String × Nat)) (a b : SConn) (ta tb : PTarget)
+    (ha : exportTarget a = .ok ta) (hb : exportTarget b = .ok tb) :
+    exportTarget (.concat [a, b]) = .ok (.concat [tb, ta]) ∧
+    readTarget ws (.concat [tb, ta]) = readTarget ws ta ++ readTarget ws tb := by
+  constructor
+  · rw [exportTarget]; simp only [bind, Except.bind]
+    rw [exportParts]; simp only [bind, Except.bind, ha]
+    rw [exportParts]; simp only [bind, Except.bind, hb]
+    rw [exportParts]; simp
+  · rw [readTarget, readParts, readParts, readParts]; simp
+
+/-! ### Non-vacuity: a reversed slice of a concatenation -/
+example :
+    let c : SConn := .slice (.concat [.sig "a" 2, .sig "b" 3]) (.range none none (some (-2)))
+    (match resolveSliceable 12 c with
+     | .ok r => (match exportTarget r with
+                 | .ok t => some (readTarget [("a", 2), ("b", 3)] t)
+                 | .error _ => none)
+     | .error _ => none) = some [("b", 2), ("b", 0), ("a", 0)] := by decide +kernel
+
 end Hdl21.Props.C01
